@@ -40,12 +40,13 @@ theorem symbols_agree : SymbolsAgree where
   unary := by intro o; cases o <;> decide
   cmp := by intro o; cases o <;> decide
 
-/-- Exactly these operator classes have no entry (today: `**` and `@`). -/
-theorem operators_without_symbol :
-    (BinOp.all.filter fun o => o.sym.isNone) = [.matMult, .pow]
-    ∧ (BoolOp.all.filter fun o => o.sym.isNone) = []
-    ∧ (UnaryOp.all.filter fun o => o.sym.isNone) = []
-    ∧ (CmpOp.all.filter fun o => o.sym.isNone) = [] := by decide
+/-- Every operator class of the grammar has an entry (since 79438d0 also `**` and `@`): the `KeyError` of
+`TABLE[type(op)]` cannot happen. -/
+theorem symbols_total : SymbolsTotal where
+  bool := by intro o; cases o <;> exact Option.isSome_iff_exists.mp (by decide)
+  bin := by intro o; cases o <;> exact Option.isSome_iff_exists.mp (by decide)
+  unary := by intro o; cases o <;> exact Option.isSome_iff_exists.mp (by decide)
+  cmp := by intro o; cases o <;> exact Option.isSome_iff_exists.mp (by decide)
 
 /-- Exactly these expression classes have no `visit_*` in `SourceGenerator` (they go through `generic_visit`,
 which writes only their children); `arg`/`comprehension` have one, `keyword`/`arguments` are handled inline. -/
@@ -62,54 +63,55 @@ theorem wrapping_visitors :
 /-! ## `print_total` -/
 
 /- OPEN  print_total : ∀ e : Expr, ∃ t, print e = some t
-   false today: `**`, `@` have no table entry (`KeyError`), `f(**k)` (`TypeError`), `{**d}` and a bare `yield`
-   (`AttributeError`). -/
+   false today only for a bare `yield` (`visit_Yield` visits `None`: `AttributeError`).  Repaired: `**`/`@`
+   (79438d0), `f(**k)` and `{**d}` (093862d). -/
 
-/-- **print_total_partial.** For every expression in which every operator used has a table entry, every keyword
-argument has a name, every dict entry a key and every `yield` a value, the re-emitter returns a text. -/
+/-- **print_total_partial.** For every expression without a bare `yield` the re-emitter returns a text
+(every operator, every kind of argument, parameter and display included). -/
 theorem print_total_partial (e : Expr) (h : totalGuard e = true) : ∃ t, print e = some t :=
-  total_print e h
+  total_print symbols_total e h
 
-/-- the guard is satisfiable by a non-trivial expression: `f(a + 1, k=[b])[::c]` -/
+/-- the guard is satisfiable by a non-trivial expression: `f(a ** 1, *b, **k)[::{**d}]` -/
 example : totalGuard (.subscript (.call (.name ['f'] .load)
-    [.binOp (.name ['a'] .load) .add (.const .int ['1'])] [.mk (some ['k']) (.list [.name ['b'] .load])])
-    (.slice none none (some (.name ['c'] .load)))) = true := by decide
+    [.binOp (.name ['a'] .load) .pow (.const .int ['1']), .starred (.name ['b'] .load)] [.mk none (.name ['k'] .load)])
+    (.slice none none (some (.dict [.mk none (.name ['d'] .load)])))) = true := by decide
 
-/-- the model raises on `a ** b`, `a @ b`, `f(**k)`, `{**d}`, `(yield)` -/
+/-- the model raises on `(yield)`; `a ** b`, `a @ b`, `f(**k)`, `{**d}` are printed -/
 theorem print_total_counterexample :
-    print (.binOp (.name ['a'] .load) .pow (.name ['b'] .load)) = none
-    ∧ print (.binOp (.name ['a'] .load) .matMult (.name ['b'] .load)) = none
-    ∧ print (.call (.name ['f'] .load) [] [.mk none (.name ['k'] .load)]) = none
-    ∧ print (.dict [.mk none (.name ['d'] .load)]) = none
-    ∧ print (.yield none) = none := by decide
+    print (.yield none) = none
+    ∧ printStr (.binOp (.name ['a'] .load) .pow (.name ['b'] .load)) = some "(a ** b)".toList
+    ∧ printStr (.binOp (.name ['a'] .load) .matMult (.name ['b'] .load)) = some "(a @ b)".toList
+    ∧ printStr (.call (.name ['f'] .load) [] [.mk none (.name ['k'] .load)]) = some "f(**k)".toList
+    ∧ printStr (.dict [.mk none (.name ['d'] .load)]) = some "{**d}".toList := by decide
 
 /-! ## `print_complete` -/
 
 /- OPEN  print_complete : ∀ e t, print e = some t → collect t = Spec.parts e
-   false today: keyword-only and positional-only lambda parameters are dropped, `:=`, `await`, `yield from` and
-   f-strings print only their children, `async for` loses `async`. -/
+   false today: `:=`, `await`, `yield from` and f-strings print only their children (no visitor), `async for`
+   loses `async`.  Repaired: keyword-only / positional-only lambda parameters (4cecce4). -/
 
 /-- **print_complete_partial.** Every leaf of the expression - identifiers, constants, attribute and keyword
-names, parameter names, operators in Python's spelling, the keywords of each construct - is written, once, in
-source order, whenever the printer does not raise, every class met has a visitor and none of the constructs known
-to be dropped occurs (`completeGuard`). -/
+names, parameter names of every kind with `/` and `*`, operators in Python's spelling, the keywords of each
+construct - is written, once, in source order, whenever every class met has a visitor, no comprehension clause is
+`async` and no slice step is the *name* `None` (`completeGuard`). -/
 theorem print_complete_partial (e : Expr) (t : Toks) (h : completeGuard e = true) (hp : print e = some t) :
     collect t = Spec.parts e :=
   collect_print symbols_agree e t h hp
 
-/-- the guard is satisfiable: `lambda x, y=a, *z, **w: [i for i in x if i < y]` -/
-example : completeGuard (.lambda (.mk [] [['x'], ['y']] (some ['z']) [] [] (some ['w']) [.name ['a'] .load])
+/-- the guard is satisfiable: `lambda p, /, x, y=a, *z, k, **w: [i for i in x if i < y]` -/
+example : completeGuard (.lambda (.mk [['p']] [['x'], ['y']] (some ['z']) [['k']] [none] (some ['w'])
+      [.name ['a'] .load])
     (.listComp (.name ['i'] .load) [.mk (.name ['i'] .store) (.name ['x'] .load)
       [.compare (.name ['i'] .load) [.lt] [.name ['y'] .load]] false])) = true := by decide
 
-/-- `lambda *, k: k` is re-emitted as `lambda : k`; `(x := a)` as `xa` -/
+/-- `(x := a)` is re-emitted as `xa`; `[x async for x in y]` loses `async`; `lambda *, k: k` is now complete -/
 theorem print_complete_counterexample :
-    (print (.lambda (.mk [] [] none [['k']] [none] none []) (.name ['k'] .load))).map collect
-        = some [['l', 'a', 'm', 'b', 'd', 'a'], ['k']]
-    ∧ Spec.parts (.lambda (.mk [] [] none [['k']] [none] none []) (.name ['k'] .load))
-        = [['l', 'a', 'm', 'b', 'd', 'a'], ['*'], ['k'], ['k']]
-    ∧ (print (.namedExpr (.name ['x'] .store) (.name ['a'] .load))).map collect = some [['x'], ['a']]
-    ∧ Spec.parts (.namedExpr (.name ['x'] .store) (.name ['a'] .load)) = [['x'], [':', '='], ['a']] := by decide
+    (print (.namedExpr (.name ['x'] .store) (.name ['a'] .load))).map collect = some [['x'], ['a']]
+    ∧ Spec.parts (.namedExpr (.name ['x'] .store) (.name ['a'] .load)) = [['x'], [':', '='], ['a']]
+    ∧ (printStr (.listComp (.name ['x'] .load) [.mk (.name ['x'] .store) (.name ['y'] .load) [] true]))
+        = some "[x for x in y]".toList
+    ∧ printStr (.lambda (.mk [] [] none [['k']] [none] none []) (.name ['k'] .load)) = some "lambda *, k: k".toList
+    := by decide
 
 /-! ## `print_well_parenthesised` -/
 
@@ -118,55 +120,119 @@ theorem print_balanced (e : Expr) (t : Toks) (hp : print e = some t) : ∀ d, ba
   bal_print e t hp
 
 /- OPEN  print_well_parenthesised : ∀ e p c t, (p, c) ∈ e.children → needsParens p c.ck = true →
-           print c = some t → isWrapped t = true
-   false today: conditional expressions, lambdas, `yield` and decimal integer literals are written bare whatever
-   the slot; a tuple containing a slice is parenthesised where it must not be. -/
+           print c = some t → isWrapped (inSlot p c t) = true
+   false today: `yield` and decimal integer literals are written bare whatever the slot; a tuple containing a
+   slice is parenthesised where it must not be; a lambda / conditional expression used as a *filter* is pasted bare in
+   front of `(…)` by codegen.  Repaired: conditional expressions and lambdas as operands (359f1bb). -/
 
 /-- **print_well_parenthesised_partial.** For every node `e`, every child `c` sitting in a slot `p` in which a
-bare expression of `c`'s class would not survive is printed as one parenthesised group - provided `c`'s class is one
-of those whose visitor parenthesises (`slotOK`; which these are is `wrapping_visitors`). -/
+bare expression of `c`'s class would not survive stands there (`inSlot`: its own text, parenthesised by the parent
+when the slot is written through `visit_operand` and `c` is a conditional expression or lambda) as one
+parenthesised group - provided `slotOK p c`: `c`'s own visitor parenthesises (`wrapping_visitors`), or the slot is
+a `visit_operand` slot and `c` is a conditional expression / lambda. -/
 theorem print_well_parenthesised_partial (e : Expr) (p : Pos) (c : Expr) (t : Toks)
     (_hc : (p, c) ∈ e.children) (hok : slotOK p c = true) (hn : needsParens p c.ck = true)
-    (hp : print c = some t) : isWrapped t = true := by
-  simp only [slotOK, hn, Bool.not_true, Bool.false_or, Bool.and_eq_true] at hok
-  exact wrapped_print c t hok.1 hok.2 hp
+    (hp : print c = some t) : isWrapped (inSlot p c t) = true :=
+  wrapped_inSlot p c t hok hn hp
 
 /-- the same for the two places where mako pastes a re-emitted expression: a parameter default and the callee
-of a filter call -/
+of a filter call (neither is a `visit_operand` slot) -/
 theorem print_root_well_parenthesised_partial (p : Pos) (e : Expr) (t : Toks)
-    (hok : slotOK p e = true) (hn : needsParens p e.ck = true) (hp : print e = some t) : isWrapped t = true := by
-  simp only [slotOK, hn, Bool.not_true, Bool.false_or, Bool.and_eq_true] at hok
-  exact wrapped_print e t hok.1 hok.2 hp
+    (hok : slotOK p e = true) (hn : needsParens p e.ck = true) (hp : print e = some t) :
+    isWrapped (inSlot p e t) = true :=
+  wrapped_inSlot p e t hok hn hp
 
-/-- non-trivial instance: in `(a + b) * c` the left operand needs parentheses and gets them -/
+/-- non-trivial instances: in `(a + b) * c` the left operand needs parentheses and its visitor supplies them; in
+`(a if b else c) + d` and `(lambda: a)(b)` the parent supplies them -/
 example : ((Pos.binLTerm, Expr.binOp (.name ['a'] .load) .add (.name ['b'] .load))
       ∈ (Expr.binOp (.binOp (.name ['a'] .load) .add (.name ['b'] .load)) .mult (.name ['c'] .load)).children)
     ∧ slotOK .binLTerm (.binOp (.name ['a'] .load) .add (.name ['b'] .load)) = true
     ∧ needsParens .binLTerm (Expr.binOp (.name ['a'] .load) .add (.name ['b'] .load)).ck = true :=
   ⟨by simp [Expr.children, binL, binR], by decide, by decide⟩
 
-/-- `(a if b else c) + d` is re-emitted as `(a if b else c + d)`: the conditional expression is a child in a slot
-where it needs parentheses, and it is printed bare. -/
-theorem print_well_parenthesised_counterexample :
+example :
     let c := Expr.ifExp (.name ['b'] .load) (.name ['a'] .load) (.name ['c'] .load)
     (Pos.binLArith, c) ∈ (Expr.binOp c .add (.name ['d'] .load)).children
-      ∧ needsParens .binLArith c.ck = true ∧ (print c).map isWrapped = some false :=
+      ∧ needsParens .binLArith c.ck = true ∧ slotOK .binLArith c = true
+      ∧ printStr (Expr.binOp c .add (.name ['d'] .load)) = some "((a if b else c) + d)".toList
+      ∧ printStr (.call (.lambda (.mk [] [] none [] [] none []) (.name ['a'] .load)) [.name ['b'] .load] [])
+          = some "(lambda : a)(b)".toList :=
+  ⟨by simp [Expr.children, binL, binR], by decide, by decide, by decide, by decide⟩
+
+/-- **print_places_operands.** What stands in the fixed-arity `visit_operand` slots of the printed parent really is
+`inSlot` of the child: the printed text of an attribute access, a subscription, a call, a unary/binary operation,
+a conditional expression and a starred element, in terms of the children's texts.  (For the list-valued
+`visit_operand` slots - operands of `and`/`or`, comparators, comprehension iterables and conditions, `**d` entries -
+the same is checked by the correspondence stream `corr.print` only.) -/
+theorem print_places_operands :
+    (∀ v a T, hasVisitor .attribute = true → print (.attribute v a) = some T →
+      ∃ t, print v = some t ∧ T = inSlot .attrValue v t ++ [.sep ['.'], .leaf a])
+    ∧ (∀ v sl T, hasVisitor .subscript = true → print (.subscript v sl) = some T →
+      ∃ t ts, print v = some t ∧ print sl = some ts ∧ T = inSlot .subValue v t ++ [.opn ['[']] ++ ts ++ [.cls [']']])
+    ∧ (∀ f args kws T, hasVisitor .call = true → print (.call f args kws) = some T →
+      ∃ t rest, print f = some t ∧ T = inSlot .callFunc f t ++ rest)
+    ∧ (∀ op e T, hasVisitor .unaryOp = true → print (.unaryOp op e) = some T →
+      ∃ s t, op.sym = some s ∧ print e = some t ∧
+        T = [lpar, .leaf s] ++ (if s = ['n', 'o', 't'] then [sp] else [])
+              ++ inSlot (if op = .not_ then .unaryNot else .unaryOther) e t ++ [rpar])
+    ∧ (∀ l op r T, hasVisitor .binOp = true → print (.binOp l op r) = some T →
+      ∃ s tl tr, op.sym = some s ∧ print l = some tl ∧ print r = some tr ∧
+        T = [lpar] ++ inSlot (binL op) l tl ++ [sp, .leaf s, sp] ++ inSlot (binR op) r tr ++ [rpar])
+    ∧ (∀ c b o T, hasVisitor .ifExp = true → print (.ifExp c b o) = some T →
+      ∃ tb tc to, print b = some tb ∧ print c = some tc ∧ print o = some to ∧
+        T = inSlot .ifBody b tb ++ [sp, .leaf ['i', 'f'], sp] ++ inSlot .ifTest c tc
+              ++ [sp, .leaf ['e', 'l', 's', 'e'], sp] ++ inSlot .ifOrelse o to)
+    ∧ (∀ v T, hasVisitor .starred = true → print (.starred v) = some T →
+      ∃ t, print v = some t ∧ T = [.leaf ['*']] ++ inSlot .starredValue v t) := by
+  refine ⟨?_, ?_, ?_, ?_, ?_, ?_, ?_⟩
+  · intro v a T hv h
+    simp only [print, hv, if_true, bind, Option.bind_eq_some_iff, pure, Option.some.injEq] at h
+    obtain ⟨t, ht, rfl⟩ := h; exact ⟨t, ht, by simp [inSlot, operandSlot]⟩
+  · intro v sl T hv h
+    simp only [print, hv, if_true, bind, Option.bind_eq_some_iff, pure, Option.some.injEq] at h
+    obtain ⟨t, ht, ts, hts, rfl⟩ := h; exact ⟨t, ts, ht, hts, by simp [inSlot, operandSlot]⟩
+  · intro f args kws T hv h
+    simp only [print, hv, if_true, bind, Option.bind_eq_some_iff, pure, Option.some.injEq] at h
+    obtain ⟨t, ht, ta, _, tk, _, rfl⟩ := h
+    exact ⟨t, _, ht, by simp only [inSlot, operandSlot, if_true, List.append_assoc]; rfl⟩
+  · intro op e T hv h
+    simp only [print, hv, if_true, bind, Option.bind_eq_some_iff, pure, Option.some.injEq] at h
+    obtain ⟨s, hs, t, ht, rfl⟩ := h
+    refine ⟨s, t, hs, ht, ?_⟩
+    cases op <;> simp [inSlot, operandSlot]
+  · intro l op r T hv h
+    simp only [print, hv, if_true, bind, Option.bind_eq_some_iff, pure, Option.some.injEq] at h
+    obtain ⟨tl, hl, s, hs, tr, hr, rfl⟩ := h
+    refine ⟨s, tl, tr, hs, hl, hr, ?_⟩
+    cases op <;> simp [inSlot, operandSlot, binL, binR]
+  · intro c b o T hv h
+    simp only [print, hv, if_true, bind, Option.bind_eq_some_iff, pure, Option.some.injEq] at h
+    obtain ⟨tb, hb, tc, hc, to, ho, rfl⟩ := h
+    exact ⟨tb, tc, to, hb, hc, ho, by simp [inSlot, operandSlot]⟩
+  · intro v T hv h
+    simp only [print, hv, if_true, bind, Option.bind_eq_some_iff, pure, Option.some.injEq] at h
+    obtain ⟨t, ht, rfl⟩ := h; exact ⟨t, ht, by simp [inSlot, operandSlot]⟩
+
+/-- `(yield a) + d` is re-emitted as `(yield a + d)`: the `yield` is a child in a slot where it needs parentheses,
+its visitor writes none and the slot's `visit_operand` does not know it. -/
+theorem print_well_parenthesised_counterexample :
+    let c := Expr.yield (some (.name ['a'] .load))
+    (Pos.binLArith, c) ∈ (Expr.binOp c .add (.name ['d'] .load)).children
+      ∧ needsParens .binLArith c.ck = true ∧ (print c).map (fun t => isWrapped (inSlot .binLArith c t)) = some false :=
   ⟨by simp [Expr.children, binL, binR], by decide, by decide⟩
 
-/-- `(lambda: a)(b)` is re-emitted as `lambda : a(b)`; the same bare lambda is what gets pasted in front of
-`(…)` when a lambda is used as a filter (`rootFilter`). -/
+/-- a lambda used as a filter (`${x | (lambda v: v)}`) is re-emitted bare and pasted in front of `(…)` by codegen:
+the root slot `rootFilter` needs parentheses and nothing supplies them. -/
 theorem print_well_parenthesised_counterexample_lambda :
-    let c := Expr.lambda (.mk [] [] none [] [] none []) (.name ['a'] .load)
-    (Pos.callFunc, c) ∈ (Expr.call c [.name ['b'] .load] []).children
-      ∧ needsParens .callFunc c.ck = true ∧ needsParens .rootFilter c.ck = true
-      ∧ (print c).map isWrapped = some false :=
-  ⟨by simp [Expr.children], by decide, by decide, by decide⟩
+    let c := Expr.lambda (.mk [] [['v']] none [] [] none []) (.name ['v'] .load)
+    needsParens .rootFilter c.ck = true ∧ (print c).map (fun t => isWrapped (inSlot .rootFilter c t)) = some false :=
+  ⟨by decide, by decide⟩
 
 /-- `1 .real` is re-emitted as `1.real`. -/
 theorem print_well_parenthesised_counterexample_int :
     let c := Expr.const .int ['1']
     (Pos.attrValue, c) ∈ (Expr.attribute c ['r', 'e', 'a', 'l']).children
-      ∧ needsParens .attrValue c.ck = true ∧ (print c).map isWrapped = some false :=
+      ∧ needsParens .attrValue c.ck = true ∧ (print c).map (fun t => isWrapped (inSlot .attrValue c t)) = some false :=
   ⟨by simp [Expr.children], by decide, by decide⟩
 
 /-! ## `adjust_ws_spec` : re-margining of `<% %>` / `<%! %>` blocks -/
@@ -250,13 +316,15 @@ theorem fi_visitors : FIVisitors := by constructor <;> decide
 
 /- OPEN  identifiers_exact : ∀ b, (∀ x, x ∈ fetched b ↔ x ∈ Spec.freeNames b ∧ x ∉ reserved)
                                 ∧ (∀ x, x ∈ (findIdentifiers b).declared ↔ x ∈ Spec.boundNames b)
-   false today (F12, F12b, F12c, F12e-g): `*args`/keyword-only/`**kw`/positional-only parameters are fetched,
-   comprehension variables are recorded as block-level names, default values, decorators, class headers and bodies
+   false today (F12b, F12c, F12e-g; the parameter kinds of F12 were repaired by a807210): comprehension variables are recorded as block-level names, default values, decorators, class headers and bodies
    and the element/conditions of a comprehension inside a function are never looked at, `del x` counts as a read,
    locals of a nested function are order-dependent. -/
 
-/-- **identifiers_exact_partial.** For every block without nested scopes (`flatBlock`: no lambda, comprehension,
-`def`, `class`, `del`, `global`; everything else at any nesting depth):
+/-- **identifiers_exact_partial.** For every block inside `flatBlock` - any nesting of for/while/if/try/with,
+assignments, augmented assignments, imports, `:=`, every operator, call and display, and lambdas with parameters of
+every kind (nested ones included) as long as they have no default values and no `:=` in their body; excluded are
+exactly the constructs where `FindIdentifiers` still departs from Python: comprehensions (F12b/F12e), `def` and
+`class` (F12c/F12f), default values of lambdas (F12c), `del` (F12g), `global`/`nonlocal`, `import *`:
 * *soundness and precision*: the names fetched from the template's namespace on behalf of the block
   (`undeclared − declared`, what `write_variable_declares` keeps) are **exactly** the free names of the block as a
   Python function body, except the reserved ones (`True False None print`);
@@ -277,12 +345,22 @@ example : flatBlock [.for_ (.tuple [.name ['i'] .store, .tuple [.name ['j'] .sto
     [.assign [.name ['q'] .store] (.ifExp (.name ['u'] .load) (.namedExpr (.name ['w'] .store) (.name ['i'] .load))
       (.dict [.mk (some (.name ['k'] .load)) (.name ['v'] .load)]))]] = true := by decide
 
-/-- `def f(*b, c=1, **d): return (b, c, d)`: `b`, `c`, `d` are parameters, yet all three are fetched from the
-context (F12) -/
-theorem identifiers_exact_counterexample_params :
-    let blk := [Stmt.functionDef ['f'] (.mk [] [] (some ['b']) [['c']] [some (.const .int ['1'])] (some ['d']) [])
-      [.return_ (some (.tuple [.name ['b'] .load, .name ['c'] .load, .name ['d'] .load]))] []]
-    fetched blk = [['b'], ['c'], ['d']] ∧ Spec.freeNames blk = [] := by decide
+/-- lambdas with every parameter kind are inside the guard (since a807210):
+`g = lambda p, /, a, *b, c, **d: (lambda e: p + a + c + e + q)(b, d)` fetches exactly `q` -/
+example :
+    let blk := [Stmt.assign [.name ['g'] .store]
+      (.lambda (.mk [['p']] [['a']] (some ['b']) [['c']] [none] (some ['d']) [])
+        (.call (.lambda (.mk [] [['e']] none [] [] none [])
+            (.binOp (.binOp (.name ['p'] .load) .add (.name ['e'] .load)) .add (.name ['q'] .load)))
+          [.name ['b'] .load, .name ['d'] .load, .name ['a'] .load, .name ['c'] .load] []))]
+    flatBlock blk = true ∧ fetched blk = [['q']] ∧ Spec.freeNames blk = [['q']] := by decide
+
+/-- `def f(p, /, a, *b, c=1, **d): return (p, a, b, c, d)`: since a807210 no parameter of any kind is fetched -/
+theorem identifiers_parameters_not_fetched :
+    let blk := [Stmt.functionDef ['f'] (.mk [['p']] [['a']] (some ['b']) [['c']] [some (.const .int ['1'])] (some ['d']) [])
+      [.return_ (some (.tuple [.name ['p'] .load, .name ['a'] .load, .name ['b'] .load, .name ['c'] .load,
+        .name ['d'] .load]))] []]
+    fetched blk = [] ∧ Spec.freeNames blk = [] := by decide
 
 /-- `y = [x for x in z]; w = x`: the later `x` is a free name of the block, but the comprehension variable was
 recorded as declared, so `x` is not fetched (F12b); and `def f(a=b): return a` / `class A(B): c = d`: `b`, `B`, `d` are
